@@ -162,6 +162,35 @@ def run(ctx):
             mmeta.append((w, ref, pinned, pin_name, extmod))
             if wi == len(worlds) - 1:
                 res.sample({"source": progs.render_world(w, extmod), "signatures": ref, "variants": sorted(maps)})
+        # tracked values whose text form could be made to depend on the environment: relative and absolute file-system paths,
+        # pure paths, dates (outside the model's value universe: decided by comparing the environments only)
+        pm = "c3paths_%d" % os.getpid()
+        psrc = ("import dds\nimport pathlib\nimport datetime\n\n"
+                "RAW = pathlib.Path('data/raw.csv')\nDOT = pathlib.Path('.')\nUP = pathlib.Path('../x/./y')\nABS = pathlib.Path('/abs/x.csv')\n"
+                "PURE = pathlib.PurePosixPath('rel/y')\nDAY = datetime.date(2021, 3, 1)\nTUP = (pathlib.Path('a/b'), 'c')\n\n"
+                + "".join("def g_%s():\n    return str(%s)\n\n" % (n.lower(), n) for n in ("RAW", "DOT", "UP", "ABS", "PURE", "DAY", "TUP"))
+                + "def f0():\n" + "".join("    dds.keep('/c03/%s', g_%s)\n" % (n.lower(), n.lower()) for n in ("RAW", "DOT", "UP", "ABS", "PURE", "DAY", "TUP"))
+                + "    return 'ok'\n")
+        for d in (base, moved):
+            with open(os.path.join(d, pm + ".py"), "w") as fh:
+                fh.write(psrc)
+        pmaps = {}
+        for v in variants:
+            wk = workers[v["name"]]
+            d = moved if v.get("moved") else base
+            sd = tempfile.mkdtemp(prefix="c3s_", dir=base)
+            wk.call(cmd="store", kind=v.get("store", "memory"), internal_dir=sd + "/i", data_dir=sd + "/d")
+            wk.call(cmd="world", dir=d, module=pm, extmod="c3e_fixed")
+            r = wk.call(cmd="run", entry=entry)
+            res.evaluations += 1
+            pmaps[v["name"]] = r["paths"] if r["error"] is None else {"ERROR": json.dumps(r["error"])[:200]}
+        res.nontrivial("path-valued variables")
+        for name, m in pmaps.items():
+            if m != pmaps["seed0"] or "ERROR" in m:
+                res.violations.append({"what": "the signatures of a program with path / date valued variables differ between environments 'seed0' and '%s' "
+                                               "(or the program is refused)" % name,
+                                       "input": {"source": psrc, "seed0": pmaps["seed0"], name: m}, "kf": None})
+                break
         if ctx["driver_ok"]:
             ans = common.drv_batch(mreqs)
             for (w, ref, pinned, pin_name, extmod), a in zip(mmeta, ans):
